@@ -60,7 +60,7 @@ PROPS = {
     "C15": {"modules": [P + "C15"], "streams": ["semi"], "relevant": {"fit": [0, 1, 2, 3, 4, 5, 6], "lawfit": None}},
     "C16": {"modules": [P + "C16"], "streams": ["select"], "relevant": {"selmax": None, "selcut": None}},
     "C10": {"modules": [P + "C10"], "streams": ["precomp", "fit"], "relevant": {"fit": [0, 1, 2, 3, 5], "predict": [0]}},
-    "C11": {"modules": [P + "C11Map", P + "C11Family", P + "C11Perm"], "streams": ["c11", "fit"], "relevant": {"fit": [0, 1, 2, 3, 5], "predict": [0]}},
+    "C11": {"modules": [P + "C11Map", P + "C11Family", P + "C11Perm", P + "C11Registry"], "streams": ["c11", "fit"], "relevant": {"fit": [0, 1, 2, 3, 5], "predict": [0]}},
     "C17": {"modules": [P + "C17"], "streams": ["learn", "fit"], "relevant": {"swap": None, "best": None, "prune": None, "predict": [1]}},
     "C18": {"modules": [P + "C18"], "streams": ["stream"]},
     "C19": {"modules": [P + "C19"], "streams": ["persist"]},
